@@ -69,7 +69,14 @@ def _ev_obs(e):
 
 
 def _arr_obs(q):
-    return [[ts] + _ev_obs(e) for ts, e in q._queue]
+    out = []
+    for entry in q._queue:
+        try:
+            ts, e = entry
+            out.append([ts] + _ev_obs(e))
+        except Exception:  # noqa  (an entry that is not a (ts, event) pair)
+            out.append([None, None, BADP, -1, "?"])
+    return out
 
 
 class Runner:
@@ -119,9 +126,11 @@ class Runner:
         if k in ("add", "addmany"):
             return ["none"] if r is None else ["value", repr(r)]
         if k == "get":
-            return ["ev"] + _ev_obs(r)
+            return ["ev"] + _ev_obs(r) if hasattr(r, "precedence") else ["value", repr(r)]
         if k == "cur":
-            return ["evs", [_ev_obs(e) for e in r]] if isinstance(r, list) else ["value", repr(r)]
+            if isinstance(r, list) and all(hasattr(e, "precedence") for e in r):
+                return ["evs", [_ev_obs(e) for e in r]]
+            return ["value", repr(r)]
         if k == "len":
             return ["len", r] if isinstance(r, int) and not isinstance(r, bool) else ["value", repr(r)]
         if k == "empty":
@@ -148,11 +157,16 @@ class Runner:
             self.results.append(res)
             return res
         try:
-            res = self._obs(k, self._do(self.q, op, False))
+            r = self._do(self.q, op, False)
         except IndexError:
             res = ["IndexError"]
         except Exception as ex:  # noqa
             res = ["exc", type(ex).__name__]
+        else:
+            try:
+                res = self._obs(k, r)
+            except Exception as ex:  # noqa
+                res = ["value", "unobservable result: %s" % type(ex).__name__]
         if self.twin is not None:
             try:
                 tres = self._obs(k, self._do(self.twin, op, True))
@@ -166,7 +180,10 @@ class Runner:
         return res
 
     def final(self):
-        return dict(array=_arr_obs(self.q), timestep=self.q._timestep)
+        try:
+            return dict(array=_arr_obs(self.q), timestep=self.q._timestep)
+        except Exception as ex:  # noqa
+            return dict(array=[[None, None, BADP, -1, type(ex).__name__]], timestep=None)
 
 
 def run_impl(init, ops):
@@ -367,10 +384,17 @@ def gen_cases(rng, n, tier):
     for init, ops in CORPUS:
         cases.append(make_case(init, ops, run_impl(init, ops), "corpus"))
     maxlen = MAXLEN[tier]
+    shrunk = any(monitor(c) for c in cases)
     while len(cases) < n:
         # thorough: most sequences stay moderate, a share goes up to 2000 ops
         ml = maxlen if (tier == "quick" or rng.random() < 0.04) else 300
         init, ops, impl, profile = gen_one(rng, ml)
+        if not shrunk and monitor_trace(init, ops, impl):
+            # the implementation violates C11 on this sequence: keep a minimised version of it
+            # (it becomes the replay witness); costs nothing on a conforming tree
+            shrunk = True
+            init, ops = _shrink(init, ops)
+            impl = run_impl(init, ops)
         cases.append(make_case(init, ops, impl, profile))
     return cases[:n]
 
